@@ -178,6 +178,9 @@ func (c CounterStyle) renderValue(counterValue int, counter *CounterStyleDescrip
 		useNegative                    bool
 	)
 	isNegative := counterValue < 0
+	// the value represented by the system : the absolute value when the sign
+	// is written apart ([counterValue] is kept for the fallback styles)
+	value := counterValue
 	if isNegative {
 		vs := counter.Negative
 		if vs == ([2]pr.NamedString{}) {
@@ -186,7 +189,7 @@ func (c CounterStyle) renderValue(counterValue int, counter *CounterStyleDescrip
 		negativePrefix, negativeSuffix = symbol(vs[0]), symbol(vs[1])
 		useNegative = system == "symbolic" || system == "alphabetic" || system == "numeric" || system == "additive"
 		if useNegative {
-			counterValue = utils.Abs(counterValue)
+			value = utils.Abs(counterValue)
 		}
 	}
 
@@ -196,7 +199,7 @@ func (c CounterStyle) renderValue(counterValue int, counter *CounterStyleDescrip
 	)
 	switch system {
 	case "cyclic":
-		initial, ok = repeating(counter.Symbols, counterValue)
+		initial, ok = repeating(counter.Symbols, value)
 		if !ok {
 			return c.RenderValue(counterValue, "decimal")
 		}
@@ -204,22 +207,26 @@ func (c CounterStyle) renderValue(counterValue int, counter *CounterStyleDescrip
 		if len(counter.Symbols) == 0 {
 			return c.RenderValue(counterValue, "decimal")
 		}
-		initial, ok = nonRepeating(counter.Symbols, fixedNumber, counterValue)
+		initial, ok = nonRepeating(counter.Symbols, fixedNumber, value)
 		if !ok {
 			return c.renderValue(counterValue, c.resolveCounter(counter.fallback(), previousTypes), previousTypes)
 		}
 	case "symbolic":
-		initial, ok = symbolic(counter.Symbols, counterValue)
-		if !ok {
+		if len(counter.Symbols) == 0 {
 			return c.RenderValue(counterValue, "decimal")
 		}
+		initial, ok = symbolic(counter.Symbols, value)
+		if !ok {
+			// the value has no (reasonable) representation : use the fallback
+			return c.renderValue(counterValue, c.resolveCounter(counter.fallback(), previousTypes), previousTypes)
+		}
 	case "alphabetic":
-		initial, ok = alphabetic(counter.Symbols, counterValue)
+		initial, ok = alphabetic(counter.Symbols, value)
 		if !ok {
 			return c.RenderValue(counterValue, "decimal")
 		}
 	case "numeric":
-		initial, ok = numeric(counter.Symbols, counterValue)
+		initial, ok = numeric(counter.Symbols, value)
 		if !ok {
 			return c.RenderValue(counterValue, "decimal")
 		}
@@ -227,7 +234,7 @@ func (c CounterStyle) renderValue(counterValue int, counter *CounterStyleDescrip
 		if len(counter.AdditiveSymbols) == 0 {
 			return c.RenderValue(counterValue, "decimal")
 		}
-		initial, ok = additive(counter.AdditiveSymbols, counterValue)
+		initial, ok = additive(counter.AdditiveSymbols, value)
 		if !ok {
 			return c.renderValue(counterValue, c.resolveCounter(counter.fallback(), previousTypes), previousTypes)
 		}
